@@ -14,11 +14,11 @@ import (
 	"sort"
 	"strings"
 
-	"golang.org/x/tools/go/callgraph/cha"
-	"golang.org/x/tools/go/callgraph/vta"
+	"verif/third_party/xtools/go/callgraph/cha"
+	"verif/third_party/xtools/go/callgraph/vta"
 	"golang.org/x/tools/go/packages"
-	"golang.org/x/tools/go/ssa"
-	"golang.org/x/tools/go/ssa/ssautil"
+	"verif/third_party/xtools/go/ssa"
+	"verif/third_party/xtools/go/ssa/ssautil"
 )
 
 // Prog is one loaded Go module.
@@ -36,6 +36,10 @@ type Prog struct {
 	cells    map[*ssa.Alloc]*cellInfo
 	exprMemo map[ssa.Value]*Expr
 	vtaEdges map[ssa.CallInstruction][]*ssa.Function
+
+	// Flattened lists the inlining steps applied (caller <- callee).
+	Flattened []string
+	anchors   map[string]bool
 }
 
 // Load type-checks dir (patterns default to ./...) without test files and
@@ -102,8 +106,29 @@ func LoadEnv(dir string, extraEnv []string, patterns ...string) (*Prog, error) {
 	if len(p.srcFuncs) == 0 {
 		return nil, fmt.Errorf("load %s: no source functions", dir)
 	}
+	if AnchorsFile != "" {
+		anchors, err := ReadAnchors(AnchorsFile)
+		if err != nil {
+			return nil, fmt.Errorf("load: %v", err)
+		}
+		log, err := p.Flatten(anchors)
+		if err != nil {
+			return nil, err
+		}
+		p.Flattened = log
+		p.anchors = anchors
+		if len(log) > 0 {
+			p.srcFuncs = nil
+			p.parents = map[*ssa.Function]*ssa.MakeClosure{}
+			p.collectSrcFuncs()
+		}
+	}
 	return p, nil
 }
+
+// AnchorsFile names the list of anchor functions (see flatten.go); when empty
+// the program is analysed as built.
+var AnchorsFile string
 
 func (p *Prog) collectSrcFuncs() {
 	seen := map[*ssa.Function]bool{}
@@ -118,12 +143,20 @@ func (p *Prog) collectSrcFuncs() {
 			for _, in := range b.Instrs {
 				if mc, ok := in.(*ssa.MakeClosure); ok {
 					if cf, ok := mc.Fn.(*ssa.Function); ok {
-						p.parents[cf] = mc
+						// after flattening a literal may be created both in its
+						// (non-anchor) home function and in the copies inlined into
+						// anchors: the rule sets look at it from the anchor
+						if old, ok := p.parents[cf]; !ok || !p.isAnchorFn(old.Parent()) {
+							p.parents[cf] = mc
+						}
 					}
 				}
 			}
 		}
 		for _, a := range f.AnonFuncs {
+			add(a)
+		}
+		for _, a := range f.InlinedAnonFuncs() {
 			add(a)
 		}
 	}
@@ -208,6 +241,10 @@ func (p *Prog) Func(pkgPath, name string) *ssa.Function {
 func Closures(fn *ssa.Function) []*ssa.Function {
 	out := []*ssa.Function{fn}
 	for _, a := range fn.AnonFuncs {
+		out = append(out, Closures(a)...)
+	}
+	// literals created through inlined copies of helper bodies
+	for _, a := range fn.InlinedAnonFuncs() {
 		out = append(out, Closures(a)...)
 	}
 	return out
@@ -380,4 +417,14 @@ func (p *Prog) DynCallees(site ssa.CallInstruction) []*ssa.Function {
 		}
 	}
 	return p.vtaEdges[site]
+}
+
+func (p *Prog) isAnchorFn(f *ssa.Function) bool {
+	if p.anchors == nil || f == nil {
+		return true
+	}
+	for f.Parent() != nil {
+		f = f.Parent()
+	}
+	return p.anchors[p.AnchorName(f)]
 }
